@@ -288,6 +288,34 @@ theorem dtd_attribute_required_sound (d : DtdAttrDecl) (hwf : d.wf = true) (f : 
 example : dtdAttrField { default := .required } = some { init := true, default := .missing } := by
   decide
 
+/-- **The declared default of a list-typed attribute is kept** (NMTOKENS / IDREFS / ENTITIES with a
+default or `#FIXED` value): the generated field carries the declared tokens as its default, for
+`#FIXED` with `init=False` — `should_reset_default` looks at `is_list` (several occurrences), never
+at the tokens flag. (`dtd_attribute_faithful` ranges over these declarations too: an element that
+omits the attribute is read with the declared tokens.) -/
+theorem dtd_tokens_default_kept (d : DtdAttrDecl) (v : Str) (hv : d.value = some v)
+    (hk : d.default = .fixed ∨ d.default = .noneD) :
+    dtdAttrField d = some { init := d.default ≠ .fixed, default := .value v } := by
+  obtain ⟨k, w, t⟩ := d
+  simp only at hv hk
+  subst hv
+  rcases hk with rfl | rfl <;> cases t <;>
+    simp [dtdAttrField, dtdAttr, fieldOf, sanitize, shouldResetRequired, shouldResetDefault, GAttr.isList]
+
+/-- `toks NMTOKENS "t1 t2"`, attribute absent → the declared tokens -/
+example : readAttr (dtdAttrField { default := .noneD, value := some "t1 t2".toList, tokens := true }) none
+    = some (some "t1 t2".toList) := by decide
+
+/-- a list-typed attribute without default (`#IMPLIED`, `#REQUIRED`) gets `default_factory=list` -/
+theorem dtd_tokens_no_default (d : DtdAttrDecl) (ht : d.tokens = true) (hv : d.value = none)
+    (hk : d.default = .required ∨ d.default = .implied) :
+    dtdAttrField d = some { init := true, default := .listFactory } := by
+  obtain ⟨k, w, t⟩ := d
+  simp only at hv ht hk
+  subst hv ht
+  rcases hk with rfl | rfl <;>
+    simp [dtdAttrField, dtdAttr, fieldOf, sanitize, shouldResetRequired, shouldResetDefault, GAttr.isList]
+
 /-! ## 5. element declarations: mixed content
 
 `dtdClassFields t content`: the element fields of the class of `<!ELEMENT e …>` by the element type
